@@ -462,8 +462,11 @@ def cmd_campaign(mod, tier, seed):
         "coverage": coverage, "assumptions": list(mod.ASSUMPTIONS),
         "wall_s": round(wall, 2), "violations": len(violations),
     }
-    (VERIF / "evidence").mkdir(exist_ok=True)
-    (VERIF / "evidence" / f"{pid}.json").write_text(json.dumps(evidence, indent=1, default=str))
+    # evidence describes runs against /repo itself; a run against another tree (FORD_REPO=<scratch copy>, used to
+    # try seeded changes) must not overwrite it
+    edir = VERIF / ("evidence" if os.path.realpath(os.environ.get("FORD_REPO", "/repo")) == "/repo" else "evidence-scratch")
+    edir.mkdir(exist_ok=True)
+    (edir / f"{pid}.json").write_text(json.dumps(evidence, indent=1, default=str))
 
     # 5. report
     for ln in lines:
